@@ -1093,8 +1093,9 @@ func signOf(a aval) (int, bool) {
 // SORT1: the document comparator used by the sort node, abstractly evaluated for
 // one and two sort options over every combination of (first has field, second
 // has field, sign of Compare, direction), returns the sign the definition gives:
-// per option: absent-before-present scaled by the direction, Compare scaled by
-// the direction when both are present; the first non-zero option decides.
+// per option: internal.Compare of the two values (an absent field reads as nil
+// and orders together with nil, whatever Document.Has says) scaled by the
+// direction; the first non-zero option decides.
 func ruleSORT1(c *Ctx) []Ob {
 	o := newObs(c, "SORT1")
 	cmp := c.lookupFunc("internal", "Compare")
@@ -1224,17 +1225,12 @@ func ruleSORT1(c *Ctx) []Ob {
 		}
 		return sign, ""
 	}
+	// the definition (C08): per option the sign of internal.Compare on the two values scaled by the
+	// direction, an absent field ordering TOGETHER WITH nil: Document.Get yields nil for it, so whether
+	// the field is present must not influence the result.
 	want := func(opts []opt) int {
 		for _, op := range opts {
-			v := int64(0)
-			switch {
-			case !op.fh && op.sh:
-				v = -op.d
-			case op.fh && !op.sh:
-				v = op.d
-			case op.fh && op.sh:
-				v = op.res * op.d
-			}
+			v := op.res * op.d
 			if v < 0 {
 				return -1
 			}
@@ -1274,7 +1270,7 @@ func ruleSORT1(c *Ctx) []Ob {
 	case undec != "":
 		o.add(UNDECIDED, key, pos, "%s", undec)
 	default:
-		o.add(OK, key, pos, "sign of the result equals the definition in all %d cases (negative direction reverses; absent sorts before present)", n)
+		o.add(OK, key, pos, "sign of the result equals the definition in all %d cases (negative direction reverses; an absent field orders together with nil)", n)
 	}
 	bad, undec, n = "", "", 0
 	for _, a := range all {
